@@ -36,3 +36,183 @@ Theorem C01_roundtrip_exact : forall len vals, wf_vals len vals ->
   Forall (fun v => boundary_zero len v = false) vals -> clip_filter 0 len vals = vals.
 Proof. exact full_span_read_exact. Qed.
 Print Assumptions C01_roundtrip_exact.
+
+(* ------------------------------------------------------------------------------------------
+   Whole-file round trip: the list-level theorems above composed with the byte-exact writer model
+   (Model/BigWigWrite.v: bw_write = BigWigWrite::write, bw_write_multipass = write_multipass; the
+   output is the exact byte image of the uncompressed file) and the reader model on bytes
+   (Model/BBIRead.v: read_info, bw_interval = get_interval fully drained).
+   Proofs: Proofs/FileRegions.v (regions of an image), BigWigFile.v (assemble inverted: the file is
+   pre' ++ data ++ chromosome tree ++ index ++ zooms ++ magic, the three write_info patches stay
+   inside the first 352 bytes), BigWigFileChroms.v (ids, chromosome tree codec), BigWigFileData.v
+   (section codec, sortedness), BigWigFileRoundTrip.v (composition with C05's
+   search_bytes_eq_scan), BigWigFileThms.v (the two writers).
+
+   Hypotheses, all of them guards of the Rust types or of the property's own wording:
+   - opts_ok o        : 2 <= block_size <= 65535 and 1 <= items_per_slot <= 65535 (the node and
+                        section item counts are u16 fields);
+   (No hypothesis on the zoom options: since /repo adc453b both writers keep at most
+    MAX_ZOOM_LEVELS = 10 levels, so write_info's directory stays inside the reserved 304 bytes;
+    before that repair the proof needed "at most 10 levels" as a hypothesis - see notes/C01.md.)
+   - input_ok sizes inp : every chromosome's items are contiguous in the input ("sorted" input: one
+                        run per chromosome; implied by the writer's own order check when
+                        allow-out-of-order is off); chromosome names contain no zero byte (the key
+                        is zero padded and the reader trims zeros) and are shorter than 2^32; fewer
+                        than 65536 chromosomes (the chromosome tree is one leaf block with a u16
+                        count); chromosome lengths and value bit patterns are < 2^32 (u32 / f32);
+   - Nlen bs < 2^64   : file offsets are u64.
+   [infl] (the decompressor) is arbitrary: the modelled writer emits uncompressed files
+   (uncompress_buf_size = 0), for which the reader never calls it. *)
+From BT Require Import Base.LE Proofs.RTreeCodec Proofs.FileRegions Proofs.BigWigFile Proofs.BigWigFileChroms
+  Proofs.BigWigFileData Proofs.BigWigFileRoundTrip Proofs.BigWigFileThms.
+
+(* the file written by either writer is opened by read_info (never Err/Panic/Fuel): little-endian
+   bigWig, version 4, uncompressed, data count at 344, summary at 304, as many zoom directory
+   entries as the header announces (at most 10) *)
+Theorem C01_read_info : forall fp o sizes inp bs,
+  opts_ok o -> input_ok sizes inp -> Nlen bs < U64 ->
+  bw_write fp o sizes inp = Ok bs \/ bw_write_multipass fp o sizes inp = Ok bs ->
+  exists i, read_info bs = Ok i
+    /\ h_big (i_hdr i) = false /\ h_bigwig (i_hdr i) = true /\ h_version (i_hdr i) = 4
+    /\ h_ubuf (i_hdr i) = 0 /\ h_full_data_off (i_hdr i) = PRE_DATA - 8 /\ h_summary_off (i_hdr i) = PRE_DATA - 48
+    /\ h_zoom_levels (i_hdr i) = Nlen (i_zooms i) /\ Nlen (i_zooms i) <= 10.
+Proof.
+  intros fp o sizes inp bs Ho Hi Hs H. exact (roundtrip_read_info sizes inp bs (write_roundtrip_for fp o sizes inp bs Ho Hi Hs H)).
+Qed.
+Print Assumptions C01_read_info.
+
+(* the chromosome table read back is exactly the chromosomes that had data, numbered 0,1,2,... in
+   the order of their runs in the input (= first-appearance order, one run per chromosome), with
+   the supplied lengths:  expected_chroms sizes inp = map (ci_of sizes) (number 0 (map fst (runs inp))) *)
+Theorem C01_chrom_table : forall fp o sizes inp bs i,
+  opts_ok o -> input_ok sizes inp -> Nlen bs < U64 ->
+  bw_write fp o sizes inp = Ok bs \/ bw_write_multipass fp o sizes inp = Ok bs ->
+  read_info bs = Ok i ->
+  i_chroms i = map (fun ci => {| ci_name := fst ci; ci_id := snd ci;
+                                 ci_len := match lookup (fst ci) sizes with Some l => l | None => 0 end |})
+                   (number 0 (map fst (runs inp))).
+Proof.
+  intros fp o sizes inp bs i Ho Hi Hs H Hri.
+  exact (roundtrip_chroms sizes inp bs i (write_roundtrip_for fp o sizes inp bs Ho Hi Hs H) Hri).
+Qed.
+Print Assumptions C01_chrom_table.
+
+(* every run (c, vs) of the input was accepted by the per-chromosome check against the supplied length *)
+Theorem C01_accepted_runs : forall fp o sizes inp bs,
+  opts_ok o -> input_ok sizes inp -> Nlen bs < U64 ->
+  bw_write fp o sizes inp = Ok bs \/ bw_write_multipass fp o sizes inp = Ok bs ->
+  forall c vs, In (c, vs) (runs inp) -> exists len, lookup c sizes = Some len /\ wf_vals len vs /\ vs <> [].
+Proof. intros fp o sizes inp bs Ho Hi Hs. exact (write_accepted fp o sizes inp bs Hi). Qed.
+Print Assumptions C01_accepted_runs.
+
+(* any range query on the written bytes, for every chromosome that had data: exactly the values
+   overlapping [s,e), clipped, in order, bit-identical (header -> chromosome tree -> index search on
+   bytes -> block reads -> section decode -> clip), for both writers *)
+Theorem C01_query : forall fp o sizes inp bs i infl c vs s e,
+  opts_ok o -> input_ok sizes inp -> Nlen bs < U64 ->
+  bw_write fp o sizes inp = Ok bs \/ bw_write_multipass fp o sizes inp = Ok bs ->
+  read_info bs = Ok i -> In (c, vs) (runs inp) ->
+  bw_interval infl bs i c s e = Ok (clip_filter s e vs).
+Proof.
+  intros fp o sizes inp bs i infl c vs s e Ho Hi Hs H Hri Hin.
+  exact (roundtrip_query sizes inp bs i infl c vs s e (write_roundtrip_for fp o sizes inp bs Ho Hi Hs H) Hri Hin).
+Qed.
+Print Assumptions C01_query.
+
+(* THE ROUND TRIP (single pass): reading the full span of a chromosome that had data returns its
+   accepted values, same triples, same order, bit-identical values, except zero-length values at
+   position 0 / at the chromosome end (known finding K1, C01_zero_length_boundary_refuted) *)
+Theorem C01_roundtrip : forall fp o sizes inp bs i infl c vs len,
+  opts_ok o -> input_ok sizes inp -> Nlen bs < U64 ->
+  bw_write fp o sizes inp = Ok bs ->
+  read_info bs = Ok i -> In (c, vs) (runs inp) -> lookup c sizes = Some len ->
+  bw_interval infl bs i c 0 len = Ok (filter (fun v => negb (boundary_zero len v)) vs).
+Proof.
+  intros fp o sizes inp bs i infl c vs len Ho Hi Hs H.
+  exact (write_full_span fp o sizes inp bs Ho Hi Hs (or_introl H) i infl c vs len).
+Qed.
+Print Assumptions C01_roundtrip.
+
+(* ... and for the two-pass writer *)
+Theorem C01_roundtrip_multipass : forall fp o sizes inp bs i infl c vs len,
+  opts_ok o -> input_ok sizes inp -> Nlen bs < U64 ->
+  bw_write_multipass fp o sizes inp = Ok bs ->
+  read_info bs = Ok i -> In (c, vs) (runs inp) -> lookup c sizes = Some len ->
+  bw_interval infl bs i c 0 len = Ok (filter (fun v => negb (boundary_zero len v)) vs).
+Proof.
+  intros fp o sizes inp bs i infl c vs len Ho Hi Hs H.
+  exact (write_full_span fp o sizes inp bs Ho Hi Hs (or_intror H) i infl c vs len).
+Qed.
+Print Assumptions C01_roundtrip_multipass.
+
+(* without boundary zero-length values the file returns the list itself *)
+Theorem C01_roundtrip_file_exact : forall fp o sizes inp bs i infl c vs len,
+  opts_ok o -> input_ok sizes inp -> Nlen bs < U64 ->
+  bw_write fp o sizes inp = Ok bs \/ bw_write_multipass fp o sizes inp = Ok bs ->
+  read_info bs = Ok i -> In (c, vs) (runs inp) -> lookup c sizes = Some len ->
+  Forall (fun v => boundary_zero len v = false) vs -> bw_interval infl bs i c 0 len = Ok vs.
+Proof.
+  intros fp o sizes inp bs i infl c vs len Ho Hi Hs H.
+  exact (write_full_span_exact fp o sizes inp bs Ho Hi Hs H i infl c vs len).
+Qed.
+Print Assumptions C01_roundtrip_file_exact.
+
+(* the two writers differ only in the first 352 bytes (zoom count / zoom directory) and in the zoom
+   part: data sections, chromosome tree and main index are byte-identical and sit at the same offsets *)
+Theorem C01_same_regions : forall fp o sizes inp bs1 bs2,
+  bw_write fp o sizes inp = Ok bs1 -> bw_write_multipass fp o sizes inp = Ok bs2 ->
+  exists data ct ix pre1 pre2 z1 z2,
+    bs1 = pre1 ++ data ++ ct ++ ix ++ z1 /\ bs2 = pre2 ++ data ++ ct ++ ix ++ z2
+    /\ length pre1 = 352%nat /\ length pre2 = 352%nat.
+Proof. exact bw_same_regions. Qed.
+Print Assumptions C01_same_regions.
+
+(* K1: a zero-length value at position 0 is accepted by the writer and not read back *)
+Definition k1_opts : opts :=
+  {| o_compress := false; o_ips := 2; o_bs := 2; o_izoom := 10; o_maxzooms := 2; o_manual := None; o_sort_all := true |}.
+Theorem C01_zero_length_boundary_refuted :
+  exists sizes inp bs i c vs len,
+    bw_write ieee k1_opts sizes inp = Ok bs /\ read_info bs = Ok i /\ In (c, vs) (runs inp)
+    /\ lookup c sizes = Some len /\ bw_interval (fun x => x) bs i c 0 len = Ok [] /\ vs <> [].
+Proof.
+  exists [([97], 100)], [([97], {| v_start := 0; v_end := 0; v_bits := 1065353216 |})].
+  eexists. eexists. exists [97], [{| v_start := 0; v_end := 0; v_bits := 1065353216 |}], 100.
+  split; [vm_compute; reflexivity|]. split; [vm_compute; reflexivity|].
+  split; [left; reflexivity|]. split; [reflexivity|]. split; [vm_compute; reflexivity|discriminate].
+Qed.
+Print Assumptions C01_zero_length_boundary_refuted.
+
+(* Non-vacuity: a two-chromosome, three-section input (items_per_slot = 2: chromosome "a" has
+   three values = two sections, "b" one) meets every hypothesis, with both writers; and the reader
+   run on the computed bytes returns the values (computed, not derived). *)
+Definition ex_opts : opts := k1_opts.
+Definition ex_sizes : list (name * N) := [([97], 100); ([98], 50)].
+Definition ex_a : list value :=
+  [{| v_start := 0; v_end := 10; v_bits := 1065353216 |}; {| v_start := 10; v_end := 20; v_bits := 3212836864 |};
+   {| v_start := 30; v_end := 100; v_bits := 2139095039 |}].
+Definition ex_b : list value := [{| v_start := 5; v_end := 6; v_bits := 1 |}].
+Definition ex_inp : list item := map (pair [97]) ex_a ++ map (pair [98]) ex_b.
+
+Example C01_example_hyps :
+  opts_ok ex_opts /\ input_ok ex_sizes ex_inp
+  /\ runs ex_inp = [([97], ex_a); ([98], ex_b)]
+  /\ (exists bs, bw_write ieee ex_opts ex_sizes ex_inp = Ok bs /\ Nlen bs < U64)
+  /\ (exists bs, bw_write_multipass ieee ex_opts ex_sizes ex_inp = Ok bs /\ Nlen bs < U64).
+Proof.
+  assert (Hr : runs ex_inp = [([97], ex_a); ([98], ex_b)]) by reflexivity.
+  split; [unfold opts_ok; cbn; lia|]. split.
+  - unfold input_ok. rewrite Hr. cbn [map fst]. split.
+    + repeat constructor; intros H; repeat (destruct H as [H|H]; try discriminate); assumption.
+    + split; [repeat constructor; try discriminate; reflexivity|]. split; [reflexivity|].
+      split; [unfold ex_sizes; repeat constructor|unfold ex_inp, ex_a, ex_b; cbn [map app]; repeat constructor].
+  - split; [exact Hr|]. split; eexists; (split; [vm_compute; reflexivity|reflexivity]).
+Qed.
+Example C01_example_run :
+  match bw_write ieee ex_opts ex_sizes ex_inp with
+  | Ok bs => match read_info bs with
+             | Ok i => map (fun c => (ci_name c, ci_id c, ci_len c)) (i_chroms i) = [([97], 0, 100); ([98], 1, 50)]
+                       /\ bw_interval (fun x => x) bs i [97] 0 100 = Ok ex_a
+                       /\ bw_interval (fun x => x) bs i [98] 0 50 = Ok ex_b
+             | _ => False end
+  | _ => False end.
+Proof. vm_compute. repeat split; reflexivity. Qed.
